@@ -197,6 +197,19 @@ pub fn dh_case(seed: u64, scn: &Value) -> Value {
             _ => false,
         };
         let mut equiv = true;
+        // the key types' methods are the functions: to_public = x25519_derive_public, diffie_hellman = x25519,
+        // try_from keeps the 32 bytes and refuses every other length
+        let wrappers = {
+            let sk = kestrel_crypto::PrivateKey::try_from(&a[..]).unwrap();
+            let pkb = kestrel_crypto::PublicKey::try_from(&b[..]).unwrap();    // any 32 bytes are a public key
+            sk.as_bytes() == &a[..]
+                && pkb.as_bytes() == &b[..]
+                && sk.to_public().ok().map(|p| p.as_bytes().to_vec()) == pa.as_ref().ok().cloned()
+                && sk.diffie_hellman(&pkb).ok() == kestrel_crypto::x25519(&a, &b).ok()
+                && [0usize, 1, 31, 33, 64].iter().all(|n| {
+                    kestrel_crypto::PrivateKey::try_from(&vec![7u8; *n][..]).is_err() && kestrel_crypto::PublicKey::try_from(&vec![7u8; *n][..]).is_err()
+                })
+        };
         let (symmetric, failed) = match point_kind {
             "random" | "base" => {
                 let (pa, pb) = (pa.unwrap(), if point_kind == "base" { base.to_vec() } else { pb.unwrap() });
@@ -244,12 +257,12 @@ pub fn dh_case(seed: u64, scn: &Value) -> Value {
             }
             x => panic!("point {}", x),
         };
-        (derive_is_base_mult, symmetric, failed, equiv)
+        (derive_is_base_mult, symmetric, failed, equiv, wrappers)
     }));
     match r {
-        Ok((d, s, f, q)) => json!({"ev":"dh","id":scn.get("id").cloned().unwrap_or(json!("")),"c":c.clone(),"res":"ok","derive_is_base_mult":d,"symmetric":s,"equiv":q,
+        Ok((d, s, f, q, w)) => json!({"ev":"dh","id":scn.get("id").cloned().unwrap_or(json!("")),"c":c.clone(),"res":"ok","derive_is_base_mult":d,"symmetric":s,"equiv":q,"wrappers":w,
                                 "expect_fail":scn.get("fails").cloned().unwrap_or(json!(false)),"failed":f}),
-        Err(_) => json!({"ev":"dh","id":scn.get("id").cloned().unwrap_or(json!("")),"c":c.clone(),"res":"panic","derive_is_base_mult":false,"symmetric":false,"equiv":false,
+        Err(_) => json!({"ev":"dh","id":scn.get("id").cloned().unwrap_or(json!("")),"c":c.clone(),"res":"panic","derive_is_base_mult":false,"symmetric":false,"equiv":false,"wrappers":false,
                          "expect_fail":scn.get("fails").cloned().unwrap_or(json!(false)),"failed":false}),
     }
 }
